@@ -41,6 +41,8 @@ def comp_wire(tok):
         return ts.tlv(8, b'\xf1' * int(tok[1:]))
     if isinstance(tok, str) and tok.startswith('Y'):     # 'Y<n>': n plain bytes followed by one escaped byte
         return ts.tlv(8, b'y' * int(tok[1:]) + b'\x00')
+    if isinstance(tok, str) and tok.startswith('Q'):     # 'Q<n>': a component of the parameters-digest type with an n-byte value
+        return ts.tlv(2, b'\xee' * int(tok[1:]))
     t, v = COMP[tok]
     return ts.tlv(t, v)
 
@@ -52,6 +54,8 @@ def uri_of(tok):
         return '%F1' * int(tok[1:])
     if tok.startswith('Y'):
         return 'y' * int(tok[1:]) + '%00'
+    if tok.startswith('Q'):
+        return '2=' + '%EE' * int(tok[1:])
     return URI[tok]
 
 
@@ -199,6 +203,11 @@ def space_name_lengths(tier):
                 for rep in (('list', 'uri') if n < 1000 else ('list', 'bytes')):
                     for plen, signer in ((None, 'none'), (1, 'none'), (None, 'digest'), (2, 'hmac')):
                         yield {'k': kind, 'name': toks, 'rep': rep, 'p': 'default', 'plen': plen, 'signer': signer}
+        # a component of the parameters-digest type that does not have the size of a digest: an ordinary component in a Data name,
+        # and nothing the Interest encoder can use as the place of the digest (it refuses, it must not emit a damaged packet)
+        for toks in (['a', 'Q31', 'K'], ['Q33'], ['a', 'Q3'], ['Q40', 'a'], ['a', 'Q0']):
+            for plen, signer in ((None, 'none'), (100, 'none'), (100, 'digest'), (2, 'hmac')):
+                yield {'k': kind, 'name': toks, 'rep': 'list', 'p': 'default', 'plen': plen, 'signer': signer}
         # components given as text whose escaped form is longer than the value: text length and value length on different
         # sides of 253
         for tok in [f'X{n}' for n in list(range(82, 88)) + list(range(250, 256))] + [f'Y{n}' for n in range(247, 256)]:
@@ -299,6 +308,8 @@ def run_case(case):
             npd = toks.count('P')
             if kind == 'I' and isinstance(e, ValueError) and (npd > 1 or (npd == 1 and not need_digest)):
                 return 'refused:params-digest', viol, False, None
+            if kind == 'I' and isinstance(e, ValueError) and any(isinstance(t, str) and t.startswith('Q') for t in toks):
+                return 'refused:params-digest-size', viol, True, None
             if isinstance(signer_spec, (list, tuple)) and signer_spec[1] >= 253 and signer_spec[2] != signer_spec[1] \
                     and isinstance(e, ValueError):
                 return 'refused:long-flexible-signature', viol, True, None
